@@ -55,14 +55,13 @@ def Conserved (input : List Nat) (s : St) : Prop := ∀ a, s.items.count a = inp
 
 /-- while nothing stopped the run from outside -/
 structure Clean (c : Cfg) (input : List Nat) (s : St) : Prop where
-  dropped : s.dropped = []
+  dropped : s.droppedW = [] ∧ s.droppedR = []
   ucancel : s.ucancel = false
   rd_exited : s.rd = .exited → s.src = []
   wexited : 0 < s.wexited → s.rd = .exited
   rd_running : s.rd ≠ .exited → s.rd ≠ .notStarted → 0 < s.idle + s.hold.length
   wcancel : s.wcancel = true → s.live = 0
   closed : s.closed = true → s.cons = .done ∧ s.out = [] ∧ s.kst = .exited ∧ c.hasOut = true
-  order1 : c.n = 1 → s.got ++ s.seen ++ s.out ++ s.hold ++ s.rd.held ++ s.src = input
 
 theorem inv_init (c : Cfg) (input : List Nat) (k1 k2 : Nat) : Inv c input (init c input k1 k2) := by
   constructor <;> cases hl : c.lazy <;> cases ho : c.hasOut <;> simp [init, hl, ho, St.wdone, St.wdone2]
@@ -99,21 +98,76 @@ theorem step_clean {c : Cfg} {input : List Nat} {s s' : St} {a : Act}
   obtain ⟨h1, h2, h3, h4, h5, h6, h7, h8, h9, h10, h11, h12, h13, h14, h15⟩ := hi
   cases a <;> simp only [step] at hs <;> (repeat' (split at hs)) <;> cases hs
   all_goals (first | (simp at he; done) | skip)
-  all_goals (obtain ⟨c1, c2, c3, c4, c5, c6, c7, c8⟩ := h he)
+  all_goals (obtain ⟨c1, c2, c3, c4, c5, c6, c7⟩ := h he)
   all_goals (constructor <;> first | (simp_all [St.wdone, St.wdone2, St.live, GState.held]; done) | grind [St.wdone, St.wdone2, St.live, GState.held, length_eraseIdx', single_hold])
+
+/-- one worker: exact order in *every* run (also aborted ones): delivered, buffered, held by the worker,
+    given up by the worker, held by the reader, given up by the reader, unread -/
+structure Ord1 (input : List Nat) (s : St) : Prop where
+  order : s.got ++ s.seen ++ s.out ++ s.hold ++ s.droppedW ++ s.rd.held ++ s.droppedR ++ s.src = input
+  dw : s.droppedW ≠ [] → s.wexited = 1
+  dr : s.droppedR ≠ [] → s.rd = .exited
+
+theorem ord1_init (c : Cfg) (input : List Nat) (k1 k2 : Nat) : Ord1 input (init c input k1 k2) := by
+  constructor <;> simp [init, GState.held]
+
+set_option maxHeartbeats 1000000 in
+theorem step_ord1 {c : Cfg} {input : List Nat} {s s' : St} {a : Act} (hn : c.n = 1)
+    (hi : Inv c input s) (h : Ord1 input s) (hs : step c s a = some s') : Ord1 input s' := by
+  obtain ⟨h1, h2, h3, h4, h5, h6, h7, h8, h9, h10, h11, h12, h13, h14, h15⟩ := hi
+  obtain ⟨o1, o2, o3⟩ := h
+  by_cases hh : a = .rHandoff
+  · subst hh
+    simp only [step] at hs
+    split at hs
+    · rename_i x hrd
+      split at hs
+      · rename_i hid
+        cases hs
+        have hl : s.hold.length = 0 := by omega
+        have hw : s.wexited = 0 := by omega
+        have hho : s.hold = [] := List.length_eq_zero_iff.mp hl
+        have hdw : s.droppedW = [] := by
+          cases hd : s.droppedW with
+          | nil => rfl
+          | cons y ys => have := o2 (by simp [hd]); omega
+        have hdr : s.droppedR = [] := by
+          cases hd : s.droppedR with
+          | nil => rfl
+          | cons y ys => have := o3 (by simp [hd]); simp [hrd] at this
+        refine ⟨?_, by simp [hdw], by simp [hdr]⟩
+        simp [hho, hdw, hdr, hrd, GState.held] at o1 ⊢
+        exact o1
+      · cases hs
+    · cases hs
+  have hdw : 0 < s.fresh + s.idle + s.hold.length → s.droppedW = [] := by
+    intro hpos
+    cases hd : s.droppedW with
+    | nil => rfl
+    | cons y ys => have := o2 (by simp [hd]); omega
+  have hdr : s.rd ≠ .exited → s.droppedR = [] := by
+    intro hne
+    cases hd : s.droppedR with
+    | nil => rfl
+    | cons y ys => exact absurd (o3 (by simp [hd])) hne
+  have hlen : s.hold.length ≤ 1 := by omega
+  cases a <;> simp only [step] at hs <;> (repeat' (split at hs)) <;> cases hs
+  all_goals (first | (exact absurd rfl hh) | skip)
+  all_goals (constructor <;> first | (simp_all [GState.held]; done) | grind [GState.held, length_eraseIdx', single_hold])
 
 /-- the three invariants together -/
 structure Good (c : Cfg) (input : List Nat) (s : St) : Prop where
   inv : Inv c input s
   conserved : Conserved input s
   clean : s.envStopped = false → Clean c input s
+  ord1 : c.n = 1 → Ord1 input s
 
 theorem good_init (c : Cfg) (input : List Nat) (k1 k2 : Nat) : Good c input (init c input k1 k2) :=
-  ⟨inv_init c input k1 k2, conserved_init c input k1 k2, fun _ => clean_init c input k1 k2⟩
+  ⟨inv_init c input k1 k2, conserved_init c input k1 k2, fun _ => clean_init c input k1 k2, fun _ => ord1_init c input k1 k2⟩
 
 theorem step_good {c : Cfg} {input : List Nat} {s s' : St} {a : Act}
     (h : Good c input s) (hs : step c s a = some s') : Good c input s' :=
-  ⟨step_inv h.inv hs, step_conserved h.conserved hs, step_clean h.inv h.clean hs⟩
+  ⟨step_inv h.inv hs, step_conserved h.conserved hs, step_clean h.inv h.clean hs, fun hn => step_ord1 hn h.inv (h.ord1 hn) hs⟩
 
 theorem run_good {c : Cfg} {input : List Nat} (as : List Act) : ∀ {s s' : St},
     Good c input s → run c s as = some s' → Good c input s' := by
@@ -172,9 +226,9 @@ theorem run_nostop {c : Cfg} (as : List Act) : ∀ {s s' : St},
 /-- in a failure-free run that has ended, everything is with the consumer / the user function -/
 theorem terminal_items {c : Cfg} {input : List Nat} {s : St} (h : Good c input s) (hwf : c.wf)
     (hclean : s.envStopped = false) (ht : s.terminal c = true) :
-    s.src = [] ∧ s.rd.held = [] ∧ s.hold = [] ∧ s.out = [] ∧ s.dropped = [] := by
-  obtain ⟨⟨h1, h2, h3, h4, h5, h6, h7, h8, h9, h10, h11, h12, h13, h14, h15⟩, _, hc⟩ := h
-  obtain ⟨c1, c2, c3, c4, c5, c6, c7, c8⟩ := hc hclean
+    s.src = [] ∧ s.rd.held = [] ∧ s.hold = [] ∧ s.out = [] ∧ s.droppedW = [] ∧ s.droppedR = [] := by
+  obtain ⟨⟨h1, h2, h3, h4, h5, h6, h7, h8, h9, h10, h11, h12, h13, h14, h15⟩, _, hc, _⟩ := h
+  obtain ⟨c1, c2, c3, c4, c5, c6, c7⟩ := hc hclean
   obtain ⟨w1, w2, w3, w4⟩ := hwf
   simp only [St.terminal, St.allExited, Bool.and_eq_true, Bool.or_eq_true, decide_eq_true_eq, Bool.not_eq_true'] at ht
   obtain ⟨hall, hdone⟩ := ht
@@ -200,8 +254,8 @@ theorem terminal_items {c : Cfg} {input : List Nat} {s : St} (h : Good c input s
 theorem terminal_eof {c : Cfg} {input : List Nat} {s : St} (h : Good c input s) (hwf : c.wf)
     (hclean : s.envStopped = false) (ht : s.terminal c = true) :
     s.cons = .done ∧ (if c.hasOut then s.oclosed else s.pclosed) = true := by
-  obtain ⟨⟨h1, h2, h3, h4, h5, h6, h7, h8, h9, h10, h11, h12, h13, h14, h15⟩, _, hc⟩ := h
-  obtain ⟨c1, c2, c3, c4, c5, c6, c7, c8⟩ := hc hclean
+  obtain ⟨⟨h1, h2, h3, h4, h5, h6, h7, h8, h9, h10, h11, h12, h13, h14, h15⟩, _, hc, _⟩ := h
+  obtain ⟨c1, c2, c3, c4, c5, c6, c7⟩ := hc hclean
   obtain ⟨w1, w2, w3, w4⟩ := hwf
   simp only [St.terminal, St.allExited, Bool.and_eq_true, Bool.or_eq_true, decide_eq_true_eq, Bool.not_eq_true'] at ht
   obtain ⟨hall, hdone⟩ := ht
